@@ -67,4 +67,205 @@ theorem matchingLine_sound (f : Text → Bool) (d : Doc) (hc : d.cur ≤ d.text.
 example : findNextMatchingLine (fun l => l.isEmpty) ⟨['a', '\n', 'b', '\n', '\n', 'c'], 0⟩ 1 = some 2 ∧
     findPreviousMatchingLine (fun l => l.isEmpty) ⟨['a', '\n', '\n', 'c'], 3⟩ 1 = some (-1) := by decide
 
+/-! ## 9. the word under the cursor -/
+
+theorem currentWordEnd_spec (cl : Char → Nat) (x : Text) :
+    (∀ e, currentWordEnd cl x = some e →
+      ∃ k, k ≠ 0 ∧ 1 ≤ e ∧ clsAt cl x 0 = some k ∧ (∀ j, j < e → clsAt cl x j = some k) ∧
+        clsAt cl x e ≠ some k) ∧
+    (currentWordEnd cl x = none → ∀ k, k ≠ 0 → clsAt cl x 0 ≠ some k) := by
+  cases x with
+  | nil => simp [currentWordEnd, clsAt]
+  | cons c cs =>
+    simp only [currentWordEnd]
+    by_cases hz : cl c = 0
+    · simp only [hz, if_true]
+      refine ⟨(by intro e h; cases h), ?_⟩
+      intro _ k hk
+      simp [clsAt, hz]; omega
+    · simp only [hz, if_false]
+      refine ⟨?_, (by intro h; cases h)⟩
+      intro e he
+      cases he
+      obtain ⟨h1, h2⟩ := prefixLen_spec cl (cl c) cs
+      refine ⟨cl c, hz, by omega, by simp [clsAt], ?_, ?_⟩
+      · intro j hj
+        cases j with
+        | zero => simp [clsAt]
+        | succ j => rw [clsAt_cons_succ]; exact h1 j (by omega)
+      · have : 1 + prefixLen cl (cl c) cs = prefixLen cl (cl c) cs + 1 := by omega
+        rw [this, clsAt_cons_succ]; exact h2
+
+theorem Normal.get_after (h : Normal t i A m1 m2 B) (j : Nat) (hj : j < m2.length) :
+    t[i + j]? = m2[j]? := by
+  have := h.drop
+  have e : t[i + j]? = (t.drop i)[j]? := by rw [List.getElem?_drop]
+  rw [e, this, List.getElem?_append_left hj]
+
+theorem Normal.get_before (h : Normal t i A m1 m2 B) (j : Nat) (hj : j < m1.length) :
+    t[i - 1 - j]? = m1.reverse[j]? := by
+  have hidx := h.idx
+  have e : t[i - 1 - j]? = (t.take i)[i - 1 - j]? := by
+    rw [List.getElem?_take_of_lt (by omega)]
+  rw [e, h.take, List.getElem?_append_right (by omega), List.getElem?_reverse hj]
+  congr 1; omega
+
+/-- classes 1 and 2 of the word regex are told apart by `[a-zA-Z0-9_]` membership; WORD has a
+    single non-blank class -/
+theorem cls_eq_of_nonzero (sp : Char → Bool) (WORD : Bool) (c1 c2 : Char)
+    (h1 : cls sp WORD c1 ≠ 0) (h2 : cls sp WORD c2 ≠ 0)
+    (hw : WORD = false → isWordChar c1 = isWordChar c2) : cls sp WORD c1 = cls sp WORD c2 := by
+  cases WORD with
+  | true =>
+    simp only [cls, if_true, clsBig] at h1 h2 ⊢
+    split at h1 <;> split at h2 <;> simp_all
+  | false =>
+    have := hw rfl
+    simp only [cls, Bool.false_eq_true, if_false, clsWord] at h1 h2 ⊢
+    rw [this] at h1 ⊢
+    split at h1 <;> split at h2 <;> simp_all
+
+theorem cls_ne_of_wordChar_ne (sp : Char → Bool) (c1 c2 : Char)
+    (hw : isWordChar c1 ≠ isWordChar c2) : cls sp false c1 ≠ cls sp false c2 := by
+  simp only [cls, Bool.false_eq_true, if_false, clsWord]
+  cases h1 : isWordChar c1 <;> cases h2 : isWordChar c2 <;> simp_all <;> split <;> omega
+
+/-- **`find_boundaries_of_current_word`** (no whitespace flags): when the reported span is
+    non-empty, all its characters have one and the same non-blank class (it is a single word /
+    WORD), and the span is maximal inside the current line: the character of the line after its
+    end and the one before its start (if any) have another class. -/
+theorem wordBoundaries_word (sp : Char → Bool) (d : Doc) (hc : d.cur ≤ d.text.length) (WORD : Bool) :
+    let s := (wordBoundaries sp d WORD false false).1
+    let e := (wordBoundaries sp d WORD false false).2
+    s < e →
+    ∃ k, k ≠ 0 ∧
+      (∀ p : Nat, (d.cur : Int) + s ≤ p → (p : Int) < d.cur + e → clsAt (cls sp WORD) d.text p = some k) ∧
+      clsAt (cls sp WORD) (lineAfter d) e.toNat ≠ some k ∧
+      clsAt (cls sp WORD) (lineBefore d).reverse (-s).toNat ≠ some k := by
+  obtain ⟨t, i⟩ := d
+  simp only at hc
+  obtain ⟨A, m1, m2, B, hn⟩ := exists_normal' t i hc
+  have hidx := hn.idx
+  obtain ⟨hb1, hb2⟩ := currentWordEnd_spec (cls sp WORD) m1.reverse
+  obtain ⟨ha1, ha2⟩ := currentWordEnd_spec (cls sp WORD) m2
+  -- classes of the text around the cursor
+  have hafter : ∀ j, j < m2.length → clsAt (cls sp WORD) t (i + j) = clsAt (cls sp WORD) m2 j := by
+    intro j hj; simp only [clsAt, hn.get_after j hj]
+  have hbefore : ∀ j, j < m1.length → clsAt (cls sp WORD) t (i - 1 - j) = clsAt (cls sp WORD) m1.reverse j := by
+    intro j hj; simp only [clsAt, hn.get_before j hj]
+  simp only [wordBoundaries, hn.lineBefore, hn.lineAfter, Bool.false_eq_true, if_false]
+  cases hmb : currentWordEnd (cls sp WORD) m1.reverse with
+  | none =>
+    cases hma : currentWordEnd (cls sp WORD) m2 with
+    | none => simp
+    | some ea =>
+      obtain ⟨k, hk, hea, _, hall, hstop⟩ := ha1 ea hma
+      have hle := currentWordEnd_le _ _ _ hma
+      simp only [Option.isSome_none, Bool.and_false, Bool.false_and, Bool.false_eq_true, if_false]
+      intro _
+      refine ⟨k, hk, ?_, by simpa using hstop, by simpa using hb2 hmb k hk⟩
+      intro p hp1 hp2
+      have := hafter (p - i) (by omega)
+      have e : i + (p - i) = p := by omega
+      rw [e] at this; rw [this]; exact hall _ (by omega)
+  | some eb =>
+    obtain ⟨kb, hkb, heb, hb0, hball, hbstop⟩ := hb1 eb hmb
+    have hble := currentWordEnd_le _ _ _ hmb
+    simp only [List.length_reverse] at hble
+    cases hma : currentWordEnd (cls sp WORD) m2 with
+    | none =>
+      simp only [Option.isSome_none, Bool.and_false, Bool.false_eq_true, if_false]
+      intro _
+      refine ⟨kb, hkb, ?_, by simpa using ha2 hma kb hkb, ?_⟩
+      · intro p hp1 hp2
+        have := hbefore (i - 1 - p) (by omega)
+        have e : i - 1 - (i - 1 - p) = p := by omega
+        rw [e] at this; rw [this]; exact hball _ (by omega)
+      · have : (-(-(eb : Int))).toNat = eb := by omega
+        rw [this]; exact hbstop
+    | some ea =>
+      obtain ⟨ka, hka, hea, ha0, haall, hastop⟩ := ha1 ea hma
+      have hale := currentWordEnd_le _ _ _ hma
+      -- the two characters around the cursor
+      have hc1 : ∃ c1, t[i - 1]? = some c1 ∧ cls sp WORD c1 = kb := by
+        have h0 := hn.get_before 0 (by omega)
+        simp only [clsAt] at hb0
+        cases hg : m1.reverse[0]? with
+        | none => rw [hg] at hb0; simp at hb0
+        | some c1 =>
+          rw [hg] at hb0 h0
+          exact ⟨c1, by simpa using h0, by simpa using hb0⟩
+      have hc2 : ∃ c2, t[i]? = some c2 ∧ cls sp WORD c2 = ka := by
+        have h0 := hn.get_after 0 (by omega)
+        simp only [clsAt] at ha0
+        cases hg : m2[0]? with
+        | none => rw [hg] at ha0; simp at ha0
+        | some c2 =>
+          rw [hg] at ha0 h0
+          exact ⟨c2, by simpa using h0, by simpa using ha0⟩
+      obtain ⟨c1, hg1, hk1⟩ := hc1
+      obtain ⟨c2, hg2, hk2⟩ := hc2
+      have hi1 : index? t ((i : Int) - 1) = some c1 := by
+        have : ((i : Int) - 1) = ((i - 1 : Nat) : Int) := by omega
+        rw [this, index?_natCast]; exact hg1
+      have hi2 : index? t (i : Int) = some c2 := by rw [index?_natCast]; exact hg2
+      simp only [hi1, hi2, Option.isSome_some, Bool.and_true]
+      -- the part after the cursor is a word in any case
+      have hafterword : ∀ p : Nat, i ≤ p → p < i + ea → clsAt (cls sp WORD) t p = some ka := by
+        intro p hp1 hp2
+        have := hafter (p - i) (by omega)
+        have e : i + (p - i) = p := by omega
+        rw [e] at this; rw [this]; exact haall _ (by omega)
+      have hbeforeword : ∀ p : Nat, i - eb ≤ p → p < i → clsAt (cls sp WORD) t p = some kb := by
+        intro p hp1 hp2
+        have := hbefore (i - 1 - p) (by omega)
+        have e : i - 1 - (i - 1 - p) = p := by omega
+        rw [e] at this; rw [this]; exact hball _ (by omega)
+      cases WORD with
+      | true =>
+        have hkk : kb = ka := by
+          rw [← hk1, ← hk2]
+          exact cls_eq_of_nonzero sp true c1 c2 (by rw [hk1]; exact hkb) (by rw [hk2]; exact hka)
+            (by intro h; cases h)
+        subst hkk
+        simp only [Bool.not_true, Bool.false_eq_true, if_false]
+        intro _
+        refine ⟨kb, hkb, ?_, by simpa using hastop, ?_⟩
+        · intro p hp1 hp2
+          rcases Nat.lt_or_ge p i with h | h
+          · exact hbeforeword p (by omega) h
+          · exact hafterword p h (by omega)
+        · have : (-(-(eb : Int))).toNat = eb := by omega
+          rw [this]; exact hbstop
+      | false =>
+        simp only [Bool.not_false, if_true]
+        by_cases hw : isWordChar c1 = isWordChar c2
+        · have hkk : kb = ka := by
+            rw [← hk1, ← hk2]
+            exact cls_eq_of_nonzero sp false c1 c2 (by rw [hk1]; exact hkb) (by rw [hk2]; exact hka)
+              (fun _ => hw)
+          subst hkk
+          simp only [hw, bne_self_eq_false, Bool.false_eq_true, if_false]
+          intro _
+          refine ⟨kb, hkb, ?_, by simpa using hastop, ?_⟩
+          · intro p hp1 hp2
+            rcases Nat.lt_or_ge p i with h | h
+            · exact hbeforeword p (by omega) h
+            · exact hafterword p h (by omega)
+          · have : (-(-(eb : Int))).toNat = eb := by omega
+            rw [this]; exact hbstop
+        · have hne : (isWordChar c1 != isWordChar c2) = true := by simpa using hw
+          simp only [hne, if_true]
+          intro _
+          refine ⟨ka, hka, ?_, by simpa using hastop, ?_⟩
+          · intro p hp1 hp2
+            exact hafterword p (by omega) (by omega)
+          · -- the character before the cursor has the other class
+            have hcne := cls_ne_of_wordChar_ne sp c1 c2 hw
+            rw [hk1, hk2] at hcne
+            simp only [Int.neg_zero, Int.toNat_zero]
+            rw [hb0]; intro e; exact hcne (Option.some.inj e)
+example : wordBoundaries (· == ' ') ⟨['a', 'b', '.', ' '], 1⟩ false false false = (-1, 1) ∧
+    wordBoundaries (· == ' ') ⟨['a', 'b', '.', ' '], 2⟩ false false false = (0, 1) := by decide
+
 end Ptk.C02
